@@ -584,10 +584,18 @@ class EncodeCatRows(Filter[Iterable[Union[Any,Dense,Sparse]], Iterable[Union[Any
         get_string = 'string' == self._tipe
         flat_onehot = 'onehot' == self._tipe
 
+        def mutable(o):
+            #a copy that can be written to (lazy row views and tuples become lists and dicts)
+            if isinstance(o,(list,dict)): return copy(o)
+            if isinstance(o,Sparse): return dict(o.items())
+            if isinstance(o,Dense): return list(o)
+            return copy(o)
+
         def catkey(o):
-            if isinstance(o,dict):
-                o,keys = o.copy(),o.keys()
-            elif isinstance(o,(list,tuple)):
+            if isinstance(o,(dict,Sparse)):
+                o = mutable(o)
+                keys = o.keys()
+            elif isinstance(o,(list,tuple,Dense)):
                 o,keys = list(o),range(len(o)-1,-1,-1)
             else:
                 return
@@ -604,8 +612,7 @@ class EncodeCatRows(Filter[Iterable[Union[Any,Dense,Sparse]], Iterable[Union[Any
             #k is Tuple[key,list]
             if len(k) == 2 and isinstance(k[1],list):
                 k,K = k
-                row = o[k]
-                row = list(row) if isinstance(row,tuple) else copy(row)
+                row = mutable(o[k])
                 o[k] = row
                 catset(row,K)
             #k is list of keys
@@ -638,7 +645,7 @@ class EncodeCatRows(Filter[Iterable[Union[Any,Dense,Sparse]], Iterable[Union[Any
         else:
             #catkeys holds keys (a categorical at this level) and [key,keys] pairs (categoricals further down)
             for row in rows:
-                row = list(row) if isinstance(row,tuple) else copy(row)
+                row = mutable(row)
 
                 for k in catkeys:
                     catset(row, k if isinstance(k,list) else [k])
